@@ -563,7 +563,15 @@ func (p *Packer) validSymlink(root, path, target string) (bool, error) {
 	// "/data/root".)
 	rootPrefix := strings.TrimSuffix(absRoot, string(filepath.Separator)) + string(filepath.Separator)
 	if absTarget == absRoot || strings.HasPrefix(absTarget, rootPrefix) {
-		return true, nil
+		// A relative target must also stay within root when it is read at
+		// the link's own position without knowing where root is: a target
+		// like "../<name of root>/file" climbs out of root and only comes
+		// back in by way of the name root happens to have on this system,
+		// so it leads elsewhere once the content is unpacked under another
+		// name. Such a link is external.
+		if filepath.IsAbs(target) || staysWithin(absRoot, absPath, target) {
+			return true, nil
+		}
 	}
 
 	// The link target is outside of root. Check if it is allowed.
@@ -577,6 +585,17 @@ func (p *Packer) validSymlink(root, path, target string) (bool, error) {
 			path, target,
 		),
 	}
+}
+
+// staysWithin reports whether the relative symlink target, interpreted
+// from the directory containing linkPath, never climbs above root.
+func staysWithin(root, linkPath, target string) bool {
+	relDir, err := filepath.Rel(root, filepath.Dir(linkPath))
+	if err != nil {
+		return false
+	}
+	rel := filepath.Join(relDir, target)
+	return rel != ".." && !strings.HasPrefix(rel, ".."+string(filepath.Separator))
 }
 
 // allowedSymlinkTarget checks whether the given absolute symlink target is
